@@ -438,9 +438,69 @@ func sameNames(r *verifsim.Rng, tag string, probe bool) string {
 	return b.String()
 }
 
+// statement shapes that update a value in place (counters taken from a default
+// parameter, from destructuring, from a foreach key; compound assignments;
+// decoding into typed properties): if the interpreter shares or interns values,
+// a later VM sees the damage in the most basic expressions
+var shapes = []string{
+	`function shape_a($i = 0) { for (; $i < 3; $i++) { } return $i; } shape_a();`,
+	`[$lo, $hi] = [0, 3]; for (; $lo < $hi; $lo++) { }`,
+	`foreach ([0, 1] as $k => $v) { for (; $k < 3; $k++) { } }`,
+	`$i = 0; ++$i; for (; $i < 4; $i++) { }`,
+	`$j = 1; $j--; $j--; for (; $j < 2; $j++) { }`,
+	`class ShapePerson { public $age = 0; public $name = ""; public $tags = []; } json_decode('{"age":7,"name":"n","tags":[1]}', 'ShapePerson');`,
+	`$n = 5; $n += 3; $n *= 2; $n -= 1; $n %= 7;`,
+	`$s = "a"; $s .= "b"; $s .= 1;`,
+	`$arr = [0, 1, 2]; $arr[0]++; $arr[1] += 5; $arr[] = 0;`,
+	`$o = new stdClass(); $o->v = 0; $o->v++; $o->v += 2;`,
+	`$f = 0.5; $f += 0.25; $f *= 2;`,
+	`$t = true; $t = !$t; $z = null; $z ??= 0; $z++;`,
+	`function shape_b(&$r) { $r++; } $q = 0; shape_b($q); shape_b($q);`,
+	`$w = 0; while ($w < 3) { $w++; } do { $w--; } while ($w > 0);`,
+	`function shape_c() { static $c = 0; $c++; return $c; } shape_c(); shape_c();`,
+	`$m = [[0, 0], [1, 1]]; foreach ($m as $row) { foreach ($row as $cell) { $cell++; } }`,
+	`$x = 0; $y = $x; $y++; $x += 10;`,
+	`[$p1, $p2] = [1, 2]; $p1++; $p2--;`,
+	`for ($a1 = 0, $b1 = 10; $a1 < $b1; $a1++, $b1--) { }`,
+	`$str = "abc"; $len = strlen($str); $len++; $sub = substr($str, 0, 1); $sub .= "z";`,
+	`$cnt = count([1, 2, 3]); $cnt++; $e = count([]); $e++;`,
+}
+
+const basicsProbe = `
+echo "lit=", 0, "|", 1, "|", 2, "|", 3, "|", 7, "|", 10, "|", -1, "\n";
+echo "count=", count([]), "|", count([1]), "|", count([1, 2, 3]), "\n";
+echo "strlen=", strlen(""), "|", strlen("a"), "|", strlen("abc"), "\n";
+echo "arith=", 1 + 1, "|", 2 * 3, "|", 7 - 7, "|", 9 % 4, "\n";
+echo "loop="; for ($i = 0; $i < 4; $i++) { echo $i, ","; } echo "\n";
+echo "keys="; foreach (["a", "b", "c"] as $k => $v) { echo $k, $v, ","; } echo "\n";
+echo "str=", "abc", "|", "a" . "b", "|", "" . 0, "\n";
+echo "bool=", true ? "t" : "f", "|", (0 == 0) ? "t" : "f", "|", (1 < 0) ? "t" : "f", "\n";
+echo "float=", 0.5, "|", 0.5 + 0.25, "|", 1.5 * 2, "\n";
+echo "json=", json_encode([0, 1, 2, "k" => 0]), "\n";
+echo "null=", null === null ? "null" : "notnull", "|", isset($undefinedVar) ? "set" : "unset", "\n";
+$fresh = new stdClass(); $fresh->v = 0; echo "obj=", $fresh->v, "|", json_encode($fresh), "\n";
+function basics_fn($p = 0, $q = 1) { return $p . ":" . $q; } echo "defaults=", basics_fn(), "|", basics_fn(5), "\n";
+$idxArr = [10, 20, 30]; $idxStr = "xyz"; echo "idx=", $idxArr[0], "|", $idxArr[2], "|", $idxStr[1], "\n";
+`
+
 func genPair(r *verifsim.Rng) (a, b string, parts []string) {
-	if r.Intn(3) == 0 {
+	switch r.Intn(6) {
+	case 0, 1:
 		return sameNames(r, "A", false), sameNames(r, "B", true), []string{"same_named_definitions"}
+	case 2:
+		// A: a few in-place-update shapes; B: the most basic expressions
+		var ab strings.Builder
+		ab.WriteString("<?php\n")
+		for _, i := range r.Perm(len(shapes))[:2+r.Intn(4)] {
+			ab.WriteString(shapes[i] + "\n")
+		}
+		return ab.String(), "<?php\n" + basicsProbe, []string{"in_place_update_shapes"}
+	case 3:
+		// A: a whole file of the script corpus (run from its path); B: the basics
+		if c := loadCorpusAll(); len(c) > 0 {
+			f := c[r.Intn(len(c))]
+			return "@file:" + f, "<?php\n" + basicsProbe, []string{"corpus_file:" + f}
+		}
 	}
 	var as, bs []int
 	for i := range leavers {
